@@ -385,13 +385,13 @@ func (m *model) snapshotUser() map[string]any {
 // ---------------------------------------------------------------- pools
 
 var (
-	stringPool = []string{"", "a", "b", "c", "ab", "abc", "ba", "on", "off", "auto", "x", "xa", "zzzzz", "abcab", "a b", "ä", "<&>", "1", "true", "line\nbreak", `q"uote\`, "beta", "stable"}
+	stringPool = []string{"", "a", "b", "c", "ab", "abc", "ba", "on", "off", "auto", "x", "xa", "zzzzz", "abcab", "a b", "ä", "<&>", "1", "true", "line\nbreak", `q"uote\`, "beta", "stable", "a+b", "a.b", "aab", "c|d"}
 	intPool    = []int64{0, 1, -1, 2, 3, 7, 10, 42, 100, 101, 255, -128, 999, 1000, 1001, 123456, 999999, 1000000, 1000001, 2097152, 1 << 31, -(1 << 31) - 1, 1<<53 - 1, 1 << 53, -(1 << 53), 20000000000}
 
 	stringRegexes = []string{`^[a-c]*$`, `^(on|off|auto)$`, `b`, `^.{0,3}$`}
 	intRegexes    = []string{`^[0-9]+$`, `^-?[0-9]{1,3}$`, `0$`, `^[1-9][0-9]*$`}
 
-	stringPossible = [][]any{{"on", "off", "auto"}, {"a", "b", "ab"}, {"stable", "x", ""}}
+	stringPossible = [][]any{{"on", "off", "auto"}, {"a", "b", "ab"}, {"stable", "x", ""}, {"ab", "a+b", "c|d"}}
 	intPossible    = [][]any{{int64(0), int64(1), int64(2)}, {int64(10), int64(100), int64(1000000)}, {int64(-1), int64(7)}}
 
 	keyPool = []string{"a", "b/x", "b/xy", "b/y", "c/d/e", "c/d/f", "c/g", "H.i-j", "k/l_m/n"}
@@ -500,12 +500,18 @@ func genSpec(t *rapid.T, prefix, rel string) *spec {
 		s.re = regexp.MustCompile(s.regex)
 	}
 	// the registered default must be valid: drop constraints until one exists
+	// (keep at least two valid values, so that a valid set can change the value;
+	// a bool option with a validation function has exactly one: true)
+	min := 2
+	if s.typ == config.OptTypeBool {
+		min = 1
+	}
 	valid := s.validCandidates()
-	if len(valid) < 2 && s.fn != 0 {
+	if len(valid) < min && s.fn != 0 {
 		s.fn = 0
 		valid = s.validCandidates()
 	}
-	if len(valid) < 2 && s.regex != "" {
+	if len(valid) < min && s.regex != "" {
 		s.regex, s.re = "", nil
 		valid = s.validCandidates()
 	}
@@ -601,6 +607,8 @@ func shapeOf(t *rapid.T, canon any) any {
 			return v
 		case k == 2 && int64(int(v)) == v:
 			return int(v)
+		case k == 3 && v == 0:
+			return math.Copysign(0, -1) // "-0" in a JSON file decodes to negative zero
 		case k <= 5:
 			return float64(v) // JSON-decoded number (exact: |v| <= 2^53)
 		case k == 6 && int64(int32(v)) == v:
